@@ -39,7 +39,7 @@ fn handlerize(rng: &mut Rng, op: String) -> String {
             if rng.chance(1, 2) { format!("hsignholder {} {}", rng.range(4, 6), t[1]) } else { format!("hsigncommit {} {}", rng.range(4, 6), t[1]) },
         Some("revokecp") if rng.chance(1, 3) => format!("h{}", op),
         Some("signcp") if rng.chance(1, 4) => format!("h{}", op),
-        Some("mutualclose") if rng.chance(1, 2) => format!("h{}", op),
+        Some("mutualclose") if t[2] == "2" && rng.chance(1, 2) => format!("h{}", op),
         Some("validate") if t.len() >= 7 && rng.chance(1, 6) => format!("hvalidate1 {} {} {} {} {} {}", rng.range(4, 6), t[1], t[2], t[3], t[4], t[6]),
         Some("getpoint") if rng.chance(1, 3) => {
             let n: u64 = t[1].parse().unwrap_or(0);
@@ -192,7 +192,7 @@ impl EnfGroup {
                 // mutualclose <policyOk> <phase> <well-formed request?>: a well-formed request is still
                 // refused while the current holder commitment has pending HTLCs
                 let good = rng.chance(4, 5);
-                format!("mutualclose {} 2 {}", if good && !cur_htlcs { 1 } else { 0 }, if good { 1 } else { 0 })
+                format!("mutualclose {} {} {}", if good && !cur_htlcs { 1 } else { 0 }, rng.range(1, 2), if good { 1 } else { 0 })
             }
             "signcp" => {
                 let base = if rng.chance(1, 6) { cc.saturating_sub(1) } else { cc };
@@ -297,6 +297,10 @@ impl Group for EnfGroup {
             // (feerate, to_holder, to_counterparty, HTLC amount / hash / cltv / direction, HTLC removed, point),
             // phase 2, phase 1 and through the handler; the identical retry is accepted
             f("setup|signcp 0 1000 0 1 2|signcp 1 1004 3713 1 2|signcp 1 1004 3717 1 2|signcp 1 1004 3714 1 2|signcp 1 1004 3701 1 2|signcp 1 1004 3809 1 2|signcp 1 1004 3761 1 2|signcp 1 1004 3737 1 2|signcp 1 1004 3905 1 2|signcp 1 1004 41 1 2|signcp 1 1005 3713 1 2|signcp 1 1004 3713 1 2|hsigncp 1 1004 3717 1 2|signcp 1 1004 3709 1 1|hsigncp 1 1004 3713 1 2|restart|signcp 1 1004 3717 1 2|signcp 1 1004 3713 1 1"),
+            // a restart directly after every kind of accepted state change
+            f(&format!("setup|restart|validate 0 0 1 1 1|restart|activate|restart|signcp 0 1000 0 1 1|restart|validate 1 17 1 1 2|restart|revoke 1|restart|signcp 1 1004 1 1 2|restart|revokecp 0 {} 1000|restart|signcp 2 1008 0 1 2|mutualclose 1 1 1|restart|validate 2 0 1 1 2|revoke 2|signholder 1|restart|revoke 2",
+                hex::encode(lightning_signer::lightning::ln::chan_utils::build_commitment_secret(&[3u8; 32], INITIAL)))),
+            f("setup|validate 0 0 1 1 2|activate|signcp 0 1000 0 1 2|mutualclose 1 2 1|restart|validate 1 1 1 1 2|signredundant 0 0 1|restart|revoke 1|signrecovery|restart|getsecret 0"),
             // F1 witness (fixed by 208b946): validate n+1, sign n, revoke n
             f("setup|validate 0 0 1 1 2|activate|validate 1 1 1 1 2|signholder 0|revoke 1|getsecret 0|restart|revoke 1|hrevoke 6 0"),
             // invalid signatures never open the way to a secret
@@ -385,8 +389,16 @@ impl Group for EnfGroup {
                 let op = self.gen_op(rng, &w);
                 handlerize(rng, op)
             };
-            w.apply(&op);
+            let before = w.digest();
+            let line = w.apply(&op);
+            let changed = line.starts_with("ok") && w.digest() != before;
             ops.push(op);
+            // crash point: a restart directly after a request that changed the state (a dropped or misplaced
+            // persist shows exactly here)
+            if changed && !w.dead && rng.chance(1, 6) {
+                w.apply("restart");
+                ops.push("restart".into());
+            }
         }
         ops
     }
